@@ -24,7 +24,8 @@ OPTIMIZED_SHARDS = (0,)
 NSHARDS = 16
 CONFLICT_CLASSES = ["same_line", "same_output", "same_meta_key", "del_vs_edit", "both_insert_similar", "both_insert_dissimilar",
                     "multi_line_meta", "same_attachment", "nbmeta_conflict", "out_meta_conflict", "both_append_outputs", "exec_count",
-                    "random", "insert_near", "retype", "empty_source", "minor_diff"]
+                    "random", "insert_near", "retype", "empty_source", "minor_diff", "both_rerun", "transient_meta_conflict",
+                    "both_rerun", "same_frame_insert", "del_vs_transient"]
 
 
 def plan(tier, seed):
@@ -40,7 +41,7 @@ def category(path):
         return "input"
     if len(p) >= 3 and p[0] == "cells" and p[2] == "outputs":
         # output *metadata* follows --merge-strategy in the code and "outputs" in the CLI help: ambiguous
-        if "metadata" in p[3:] or len(p) <= 4:
+        if "metadata" in p[3:] or len(p) <= 3:
             return None
         return "output"
     if not p or p[0] != "cells":
@@ -120,6 +121,14 @@ def judge(col, b, l, rm, cls, info, sides, tr):
         if not split:
             return sides["merge"]
         cat = category(d["common_path"])
+        p_ = list(d["common_path"])
+        if cat is None and len(p_) == 2 and p_[0] == "cells":
+            # a decision on the cell object itself: categorised by the members its diffs name, when they agree
+            keys = {e.get("key") for side in ("local_diff", "remote_diff") for e in (d.get(side) or [])}
+            cats = {("input" if k in ("source", "attachments") else "output" if k == "outputs" else "other") for k in keys}
+            if len(cats) == 1 and keys:
+                cat = cats.pop()
+                col.count("cell_level_decision_categorised_by_member")
         if cat is None:
             return None
         return {"input": sides["input"] or sides["merge"], "output": sides["output"] or sides["merge"], "other": sides["merge"]}[cat]
@@ -169,7 +178,9 @@ def run_shard(spec):
         cls, b, l, rm, info, waste = valid_triple(gen, cls=CONFLICT_CLASSES[k % len(CONFLICT_CLASSES)], plain_eol=True)
         if cls is None:
             continue
+        # transients ignored or not: drawn per triple (NOT from k's parity, which is tied to the class by the round robin)
+        tr1 = r.random() < 0.5
         for s in S:
-            judge(col, b, l, rm, cls, info, {"merge": s, "input": None, "output": None}, tr=(k % 2 == 0))
-        judge(col, b, l, rm, cls, info, {"merge": r.choice(S), "input": r.choice(S), "output": r.choice(S)}, tr=(k % 2 == 1))
+            judge(col, b, l, rm, cls, info, {"merge": s, "input": None, "output": None}, tr=tr1)
+        judge(col, b, l, rm, cls, info, {"merge": r.choice(S), "input": r.choice(S + [None]), "output": r.choice(S + [None])}, tr=r.random() < 0.5)
     return col.result()
